@@ -28,7 +28,7 @@ StepOK(ev) ==
                           /\ On(A, "instant", ev.x = NormDefault(ev.hasdef, ev.def, ev.noexp))
                           /\ On(A, "count", ev.c1 = 0)
     [] ev.ev = "tick"  -> On(A, "count", ev.c1 = ev.c0 /\ CountBounds(S, ev.c1, ev.now + ev.d))
-    [] ev.ev = "op"    -> Accept(A, S, ev)
+    [] ev.ev = "op"    -> ev.note # "hang" /\ Accept(A, S, ev)   \* "hang": the call did not return (watchdog of the harness)
     [] OTHER -> FALSE
 
 StepNext(ev) ==
